@@ -6,6 +6,7 @@
 -/
 import EchoVerif.Lemmas.Cas
 import EchoVerif.Lemmas.WscStore
+import EchoVerif.Lemmas.WscExport
 
 set_option linter.unusedSimpArgs false
 set_option linter.unusedVariables false
@@ -502,6 +503,316 @@ theorem wsc_import_needs_every_envelope (s : Store) (recs : Nat → List Materia
 
 end WscStore
 
+/-! ## WAL causal-history export profiles (wsc/store.rs: `wsc_*_wal_export` / `validate_wsc_*_wal_export`)
+
+  The rule the code implements: EVERY embedded payload hashes to the digest it is filed under,
+  whatever the posture of the retained-material record that digest belongs to; only coverage is
+  posture-dependent (required for `Present`, allowed for every recorded digest, refused otherwise). -/
+
+section WscExport
+open EchoVerif.Wsc EchoVerif.WscExp
+
+/-- Canonical retention records are a fixed point, with the members of the input. -/
+theorem canonRecords_fix {ms : List Material} {rs : List Reading} {cms : List Material} {crs : List Reading}
+    (h : canonRecords ms rs = some (cms, crs)) :
+    canonRecords cms crs = some (cms, crs) ∧ (∀ r, r ∈ cms ↔ r ∈ ms) ∧ (∀ r, r ∈ crs ↔ r ∈ rs) ∧
+      (∀ a ∈ cms, ∀ b ∈ cms, a.digest = b.digest → a = b) := by
+  unfold canonRecords at h
+  cases hm : canonMaterials ms with
+  | none => rw [hm] at h; cases h
+  | some a =>
+    cases hr : canonReadings rs with
+    | none => rw [hm, hr] at h; cases h
+    | some b =>
+      rw [hm, hr] at h
+      cases h
+      have i1 := wsc_canonical_idempotent Material.key Material.digest Material.key_injective ms cms hm
+      have i2 := wsc_canonical_idempotent Reading.key Reading.readingId Reading.key_injective rs crs hr
+      obtain ⟨_, _, _, _, m1⟩ := wsc_canonical_exact Material.key Material.digest Material.key_injective ms cms hm
+      obtain ⟨_, _, _, _, m2⟩ := wsc_canonical_exact Reading.key Reading.readingId Reading.key_injective rs crs hr
+      refine ⟨?_, m1, m2, ?_⟩
+      · unfold canonRecords
+        rw [show canonMaterials cms = some cms from i1, show canonReadings crs = some crs from i2]
+      · intro x hx y hy e
+        apply Classical.byContradiction
+        intro ne
+        have := (wsc_canonical_conflict_iff Material.key Material.digest cms).mpr ⟨x, hx, y, hy, e, ne⟩
+        rw [show canonical Material.key Material.digest cms = some cms from i1] at this
+        cases this
+
+/-- **embedded_payload_exact.** Whatever a self-contained import hands back in `retained_payloads` for
+    a digest `d` hashes to `d` — for EVERY posture of the record filed under `d` (no hypothesis on
+    `m.posture`); it is one of the embedded payloads, it is the only payload returned for `d`, and
+    under collision-freedom it is exactly the content of `d`. -/
+theorem embedded_payload_exact (sameRoot : Bool) (e imp : ScExport) (h : scImport H sameRoot e = .ok imp) :
+    ∀ p ∈ imp.payloads,
+      H p.bytes = p.material.digest ∧
+      (∀ m ∈ imp.ms, m.digest = p.material.digest → H p.bytes = m.digest) ∧
+      p ∈ e.payloads ∧
+      (∀ q ∈ imp.payloads, q.material.digest = p.material.digest → q = p) ∧
+      (Function.Injective H → ∀ b, H b = p.material.digest → p.bytes = b) := by
+  unfold scImport at h
+  cases sameRoot with
+  | false => simp at h
+  | true =>
+    simp only [Bool.not_true, Bool.false_eq_true, if_false] at h
+    cases hc : canonPayloads e.payloads with
+    | error d => rw [hc] at h; cases h
+    | ok cps =>
+      rw [hc] at h
+      simp only at h
+      cases hr : canonRecords e.ms e.rs with
+      | none => rw [hr] at h; cases h
+      | some pr =>
+        obtain ⟨cms, crs⟩ := pr
+        rw [hr] at h
+        simp only at h
+        cases hv : validatePayloads H cms cps with
+        | some err => rw [hv] at h; cases h
+        | none =>
+          rw [hv] at h
+          cases h
+          obtain ⟨hall, _, _⟩ := (validatePayloads_none_iff H cms cps).mp hv
+          intro p hp
+          have hp1 := hall p hp
+          refine ⟨hp1, fun m _ em => by rw [em]; exact hp1, (canonBy_mem _ _ _ _ hc p).mp hp, ?_, ?_⟩
+          · intro q hq eq
+            exact canonBy_key_unique _ _ _ _ hc q hq p hp eq
+          · intro hinj b hb
+            exact hinj (hp1.trans hb.symm)
+
+/-- **exported_payload_exact.** The same on the write side: a self-contained export that is produced
+    embeds only payloads that hash to their digest (mismatching bytes are refused on write). -/
+theorem exported_payload_exact (ms : List Material) (rs : List Reading) (ps : List Payload) (x : ScExport)
+    (h : scExport H ms rs ps = .ok x) :
+    ∀ p ∈ x.payloads, H p.bytes = p.material.digest ∧ p ∈ ps ∧ ∃ m ∈ ms, m.digest = p.material.digest := by
+  unfold scExport at h
+  cases hc : canonPayloads ps with
+  | error d => rw [hc] at h; cases h
+  | ok cps =>
+    rw [hc] at h
+    simp only at h
+    cases hv : validatePayloads H ms cps with
+    | some err => rw [hv] at h; cases h
+    | none =>
+      rw [hv] at h
+      simp only at h
+      cases hr : canonRecords ms rs with
+      | none => rw [hr] at h; cases h
+      | some pr =>
+        obtain ⟨cms, crs⟩ := pr
+        rw [hr] at h
+        cases h
+        obtain ⟨hall, _, hex⟩ := (validatePayloads_none_iff H ms cps).mp hv
+        intro p hp
+        exact ⟨hall p hp, (canonBy_mem _ _ _ _ hc p).mp hp, hex p hp⟩
+
+/-- **present_only_accepts_mismatch.** Regression witness: a validator that hashes a payload only when
+    it resolves a `Present` record accepts ANY bytes filed under the digest of a non-Present record;
+    the rule the code implements refuses them with the typed digest mismatch. -/
+theorem present_only_accepts_mismatch (m : Material) (p : Payload) (hp : isPresent m = false)
+    (hd : p.material.digest = m.digest) (hb : H p.bytes ≠ m.digest) :
+    validatePayloadsPresentOnly H [m] [p] = none ∧
+    validatePayloads H [m] [p] = some (.digestMismatch m.digest p.bytes) := by
+  constructor
+  · simp [validatePayloadsPresentOnly, validatePayloadsPresentOnly.go, hp, hd]
+  · have : H p.bytes ≠ p.material.digest := by rw [hd]; exact hb
+    simp [validatePayloads, firstHashMismatch, this, hd, hb]
+
+/-- **export_import_id_self_contained.** Importing a self-contained export under its own root returns
+    exactly the exported payloads and records. -/
+theorem export_import_id_self_contained (ms : List Material) (rs : List Reading) (ps : List Payload)
+    (x : ScExport) (h : scExport H ms rs ps = .ok x) : scImport H true x = .ok x := by
+  unfold scExport at h
+  cases hc : canonPayloads ps with
+  | error d => rw [hc] at h; cases h
+  | ok cps =>
+    rw [hc] at h
+    simp only at h
+    cases hv : validatePayloads H ms cps with
+    | some err => rw [hv] at h; cases h
+    | none =>
+      rw [hv] at h
+      simp only at h
+      cases hr : canonRecords ms rs with
+      | none => rw [hr] at h; cases h
+      | some pr =>
+        obtain ⟨cms, crs⟩ := pr
+        rw [hr] at h
+        cases h
+        obtain ⟨hfix, hm, _, _⟩ := canonRecords_fix hr
+        unfold scImport
+        simp only [Bool.not_true, Bool.false_eq_true, if_false]
+        rw [show canonPayloads cps = .ok cps from canonBy_idem _ _ _ _ hc]
+        simp only
+        rw [hfix]
+        simp only
+        rw [validatePayloads_none_congr H ms cms cps hm hv]
+
+/-- **export_import_id_cas_addressed.** With every referenced blob in the store, importing a
+    CAS-addressed export returns exactly the exported references and records. -/
+theorem export_import_id_cas_addressed (cas : Nat → Option Bytes) (ms : List Material) (rs : List Reading)
+    (refs : List CasRef) (x : CasExport) (h : casExport ms rs refs = .ok x)
+    (hb : ∀ r ∈ x.refs, ∃ b, cas r.contentHash = some b ∧ H b = r.contentHash ∧ b.length = r.byteLen) :
+    casImport H cas true x = .ok x := by
+  unfold casExport at h
+  cases hc : canonRefs refs with
+  | error d => rw [hc] at h; cases h
+  | ok crefs =>
+    rw [hc] at h
+    simp only at h
+    cases hv : refsMismatch ms crefs with
+    | some pr => obtain ⟨a, b⟩ := pr; rw [hv] at h; cases h
+    | none =>
+      rw [hv] at h
+      simp only at h
+      cases hr : canonRecords ms rs with
+      | none => rw [hr] at h; cases h
+      | some pr =>
+        obtain ⟨cms, crs⟩ := pr
+        rw [hr] at h
+        cases h
+        obtain ⟨hfix, hm, _, _⟩ := canonRecords_fix hr
+        unfold casImport
+        simp only [Bool.not_true, Bool.false_eq_true, if_false]
+        rw [show canonRefs crefs = .ok crefs from canonBy_idem _ _ _ _ hc]
+        simp only
+        rw [hfix]
+        simp only
+        rw [refsMismatch_none_congr ms cms crefs hm hv]
+        simp only
+        rw [(firstBlobFault_none_iff H cas crefs).mpr hb]
+
+/-- **export_import_id_ref_only.** Importing a reference-only export returns the exported records. -/
+theorem export_import_id_ref_only (ms : List Material) (rs : List Reading) (x : List Material × List Reading)
+    (h : refExport ms rs = .ok x) : refImport true x = .ok x := by
+  unfold refExport at h
+  cases hr : canonRecords ms rs with
+  | none => rw [hr] at h; cases h
+  | some pr =>
+    obtain ⟨cms, crs⟩ := pr
+    rw [hr] at h
+    cases h
+    obtain ⟨hfix, _⟩ := canonRecords_fix hr
+    unfold refImport
+    simp only [Bool.not_true, Bool.false_eq_true, if_false]
+    rw [hfix]
+
+/-- **withheld_or_corrupt_obstructs** (self-contained).  For envelopes that decode (payloads `cps`,
+    records `cms`/`crs`): the import succeeds EXACTLY when every payload is intact, every Present
+    record is covered and no payload is unrecorded; a corrupt payload (under a record of ANY posture)
+    is answered with the typed digest mismatch naming a really mismatching payload; with intact
+    payloads a withheld Present payload is answered with the typed `missing` naming it. -/
+theorem withheld_or_corrupt_obstructs (e : ScExport) (cps : List Payload) (cms : List Material) (crs : List Reading)
+    (hp : canonPayloads e.payloads = .ok cps) (hr : canonRecords e.ms e.rs = some (cms, crs)) :
+    (scImport H true e = .ok { payloads := cps, ms := cms, rs := crs } ↔
+      (∀ p ∈ cps, H p.bytes = p.material.digest) ∧
+      (∀ m ∈ cms, isPresent m = true → ∃ p ∈ cps, p.material.digest = m.digest) ∧
+      (∀ p ∈ cps, ∃ m ∈ cms, m.digest = p.material.digest)) ∧
+    ((∃ p ∈ cps, H p.bytes ≠ p.material.digest) →
+      ∃ p ∈ cps, H p.bytes ≠ p.material.digest ∧
+        scImport H true e = .error (.pay (.digestMismatch p.material.digest p.bytes))) ∧
+    ((∀ p ∈ cps, H p.bytes = p.material.digest) →
+      (∃ m ∈ cms, isPresent m = true ∧ ∀ p ∈ cps, p.material.digest ≠ m.digest) →
+      ∃ m ∈ cms, isPresent m = true ∧ (∀ p ∈ cps, p.material.digest ≠ m.digest) ∧
+        scImport H true e = .error (.pay (.missing m.digest))) := by
+  have himp : scImport H true e = match validatePayloads H cms cps with
+      | some err => .error (.pay err)
+      | none => .ok { payloads := cps, ms := cms, rs := crs } := by
+    unfold scImport
+    simp only [Bool.not_true, Bool.false_eq_true, if_false, hp, hr]
+    cases validatePayloads H cms cps <;> rfl
+  refine ⟨?_, ?_, ?_⟩
+  · rw [himp, ← validatePayloads_none_iff]
+    cases validatePayloads H cms cps <;> simp
+  · rintro ⟨p0, hp0, hne0⟩
+    cases hh : firstHashMismatch H cps with
+    | none => exact absurd ((firstHashMismatch_none_iff H cps).mp hh p0 hp0) hne0
+    | some x =>
+      obtain ⟨d, b⟩ := x
+      obtain ⟨p, hpm, hd, hb, hne⟩ := firstHashMismatch_some H cps d b hh
+      refine ⟨p, hpm, by rw [hd, hb]; exact hne, ?_⟩
+      rw [himp]
+      unfold validatePayloads
+      rw [hh, hd, hb]
+  · intro hall ⟨m0, hm0, hp0, hun0⟩
+    have hh := (firstHashMismatch_none_iff H cps).mpr hall
+    cases hf : List.find? (fun m => !(cps.any (fun p => decide (p.material.digest = m.digest)))) (cms.filter isPresent) with
+    | none =>
+      have := List.find?_eq_none.mp hf m0 (List.mem_filter.mpr ⟨hm0, hp0⟩)
+      simp only [Bool.not_eq_true, Bool.not_eq_false', List.any_eq_true, decide_eq_true_eq] at this
+      obtain ⟨p, hp', e'⟩ := this
+      exact absurd e' (hun0 p hp')
+    | some m =>
+      have hmem := List.mem_of_find?_eq_some hf
+      have hprop := List.find?_some hf
+      obtain ⟨hm1, hm2⟩ := List.mem_filter.mp hmem
+      simp only [Bool.not_eq_true', List.any_eq_false, decide_eq_true_eq] at hprop
+      refine ⟨m, hm1, hm2, hprop, ?_⟩
+      rw [himp]
+      unfold validatePayloads
+      rw [hh]; simp only; rw [hf]
+
+/-- **cas_withheld_or_corrupt_obstructs.** CAS-addressed import, for envelopes that decode and whose
+    references are exactly the Present records: it succeeds EXACTLY when every referenced blob is in
+    the store, hashes to the reference and has the referenced length; otherwise the error is the typed
+    blob fault of a really faulty reference.  A successful import references exactly the Present
+    records — a record of any other posture never carries a reference. -/
+theorem cas_withheld_or_corrupt_obstructs (cas : Nat → Option Bytes) (e : CasExport) (crefs : List CasRef)
+    (cms : List Material) (crs : List Reading)
+    (hp : canonRefs e.refs = .ok crefs) (hr : canonRecords e.ms e.rs = some (cms, crs)) :
+    (casImport H cas true e = .ok { refs := crefs, ms := cms, rs := crs } ↔
+      refsMismatch cms crefs = none ∧
+      ∀ r ∈ crefs, ∃ b, cas r.contentHash = some b ∧ H b = r.contentHash ∧ b.length = r.byteLen) ∧
+    (∀ imp, casImport H cas true e = .ok imp →
+      (∀ m ∈ imp.ms, isPresent m = true → ∃ r ∈ imp.refs, (r.kind, r.contentHash, r.coord) = (m.kind, m.digest, m.coord)) ∧
+      (∀ r ∈ imp.refs, ∃ m ∈ imp.ms, isPresent m = true ∧ (m.kind, m.digest, m.coord) = (r.kind, r.contentHash, r.coord))) ∧
+    (refsMismatch cms crefs = none → ∀ err, casImport H cas true e = .error err →
+      ∃ r ∈ crefs,
+        (cas r.contentHash = none ∧ err = .missingBlob r.contentHash r.coord) ∨
+        (∃ b, cas r.contentHash = some b ∧ H b ≠ r.contentHash ∧ err = .blobHashMismatch r.contentHash b) ∨
+        (∃ b, cas r.contentHash = some b ∧ H b = r.contentHash ∧ b.length ≠ r.byteLen ∧
+          err = .blobLenMismatch r.byteLen b.length)) := by
+  have himp : casImport H cas true e = match refsMismatch cms crefs with
+      | some (a, b) => .error (.refsMismatch a b)
+      | none => match firstBlobFault H cas crefs with
+        | some err => .error err
+        | none => .ok { refs := crefs, ms := cms, rs := crs } := by
+    unfold casImport
+    simp only [Bool.not_true, Bool.false_eq_true, if_false, hp, hr]
+    cases refsMismatch cms crefs with
+    | some pr => obtain ⟨a, b⟩ := pr; rfl
+    | none => cases firstBlobFault H cas crefs <;> rfl
+  refine ⟨?_, ?_, ?_⟩
+  · rw [himp, ← firstBlobFault_none_iff]
+    cases refsMismatch cms crefs with
+    | some pr => obtain ⟨a, b⟩ := pr; simp
+    | none => cases firstBlobFault H cas crefs <;> simp
+  · intro imp h
+    rw [himp] at h
+    cases hm : refsMismatch cms crefs with
+    | some pr => obtain ⟨a, b⟩ := pr; rw [hm] at h; cases h
+    | none =>
+      rw [hm] at h
+      simp only at h
+      cases hf : firstBlobFault H cas crefs with
+      | some err => rw [hf] at h; cases h
+      | none =>
+        rw [hf] at h
+        cases h
+        exact (refsMismatch_none_iff cms crefs).mp hm
+  · intro hm err h
+    rw [himp, hm] at h
+    simp only at h
+    cases hf : firstBlobFault H cas crefs with
+    | none => rw [hf] at h; cases h
+    | some err' =>
+      rw [hf] at h
+      cases h
+      exact firstBlobFault_some H cas crefs _ hf
+
+end WscExport
+
 /-! ## Non-vacuity -/
 
 /-- A collision-free `H : Bytes → Hash` exists (bijective base-256 numeration), so `mem_get_exact`
@@ -559,5 +870,26 @@ example : Wsc.canonMaterials [⟨2, 10, 1, 1⟩, ⟨1, 10, 1, 1⟩, ⟨2, 10, 1,
 example : ((Wsc.Store.empty.write 5).1.plantEnv 5 6).read 5 = .obstructed := by decide
 example : (Wsc.Store.empty.stage 5).1.read 5 = .incomplete := by decide
 example : (Wsc.Store.empty.write 5).1.read 5 = .ok := by decide
+
+/-- Export profiles, `H := length`: a one-byte payload filed under digest 1 of a RedactedByPolicy
+    record round-trips; the same record with a two-byte payload is refused on write and on read; the
+    present-only validator of the seeded regression accepts it. -/
+example : WscExp.scExport (fun b => b.length) [⟨1, 10, 5, 2⟩] [] [⟨⟨1, 10, 5, 2⟩, [7]⟩]
+    = .ok { payloads := [⟨⟨1, 10, 5, 2⟩, [7]⟩], ms := [⟨1, 10, 5, 2⟩], rs := [] } := by rfl
+example : WscExp.scExport (fun b => b.length) [⟨1, 10, 5, 2⟩] [] [⟨⟨1, 10, 5, 2⟩, [7, 7]⟩]
+    = .error (.pay (.digestMismatch 1 [7, 7])) := by rfl
+example : WscExp.scImport (fun b => b.length) true { payloads := [⟨⟨1, 10, 5, 2⟩, [7, 7]⟩], ms := [⟨1, 10, 5, 2⟩], rs := [] }
+    = .error (.pay (.digestMismatch 1 [7, 7])) := by rfl
+example : WscExp.validatePayloadsPresentOnly (fun b => b.length) [⟨1, 10, 5, 2⟩] [⟨⟨1, 10, 5, 2⟩, [7, 7]⟩] = none := by decide
+/-- A Present record whose payload is withheld; a CAS reference whose blob is withheld / corrupt. -/
+example : WscExp.scImport (fun b => b.length) true { payloads := [], ms := [⟨1, 10, 5, 1⟩], rs := [] }
+    = .error (.pay (.missing 1)) := by rfl
+example : WscExp.casImport (fun b => b.length) (fun _ => none) true { refs := [⟨5, 1, 10, 1⟩], ms := [⟨1, 10, 5, 1⟩], rs := [] }
+    = .error (.missingBlob 1 10) := by rfl
+example : WscExp.casImport (fun b => b.length) (fun _ => some [7, 7]) true { refs := [⟨5, 1, 10, 1⟩], ms := [⟨1, 10, 5, 1⟩], rs := [] }
+    = .error (.blobHashMismatch 1 [7, 7]) := by rfl
+example (ms : List Wsc.Material) (rs : List Wsc.Reading) (ps : List WscExp.Payload) (x : WscExp.ScExport)
+    (h : WscExp.scExport encNat ms rs ps = .ok x) := embedded_payload_exact encNat true x x
+      (export_import_id_self_contained encNat ms rs ps x h)
 
 end EchoVerif.C20
